@@ -309,12 +309,17 @@ func c08RunHistory(run *vfRun, base string, c c08Case) {
 			run.Note(fmt.Sprintf("case %d: Process.Close() blocked on %v; blocked frame: %s", c.Index, blocked, vfdBlockedFrame("passToApplication", 700)))
 		}
 	}()
+	t0 := time.Now()
 	if c.Family == "left" {
 		h.driveLeft()
 	} else {
 		h.drive()
 	}
+	tDrive := time.Since(t0)
 	h.recovery()
+	if d := time.Since(t0); d > 25*time.Second {
+		run.Note(fmt.Sprintf("slow history: case %d family %q took %v (drive %v), %d steps, %d executions, stuck deliveries %d", c.Index, c.Family, d.Round(time.Second), tDrive.Round(time.Second), len(h.steps), h.execs, nw.nStuck.Load()))
+	}
 
 	nw.addCounters(run)
 	run.Count("history_steps", int64(len(h.steps)))
